@@ -294,6 +294,8 @@ class GridWeighted(Grid):
             self._weights = [float(val) for val in value]
         else:
             raise TypeError("The input should be a list, tuple or a single int, float value")
+        # The weighted grid points depend on the weights
+        self._cache['gridptsw'] = []
 
     def reset(self):
         """ Resets the grid. """
